@@ -18,13 +18,27 @@ Bodies == {<<>>, <<"mov.w #5, r6">>, <<"bogus line">>, <<".org 0xfffffff0", ".db
            <<".org 0x10000", "nop", ".org 0", "nop">>, <<"asm">>, <<"quit">>, <<".msp430x", "mova #0x12345, r5">>}
 AsmArgs == {"", "0", "0x100", "0xffffffff", "-1", "xyz", "0x10-0x20"}
 AsmCases == {[cmd |-> "asm", arg |-> a, body |-> b, closed |-> c] : a \in AsmArgs, b \in Bodies, c \in BOOLEAN}
-Args == {"", "0", "0x10", "10h", "-1", "0xffffffff", "0x10-0x20", "0x20-0x10", "0x10-", "-0x10", "xyz", "0x10 1 2 3",
+Args == {"", "0", "0x10", "10h", "-1", "0xffffffff", "0x10-0x20", "0x20-0x10", "0x10-", "0xfffffff0-0xffffffff", "0xffffffff-", "0xfffffffe", "-0x10", "xyz", "0x10 1 2 3",
          "0xfffe 0x1234", "4294967296", "r4=5", "pc=0x1000", "999999999999999999999", "0x", "1 2 3 4 5 6 7 8 9 10 11 12 13 14 15 16 17 18 19 20"}
+\* command lines: up to MaxOpts options, each with its argument, without it (when it is the last word) or with a malformed
+\* one, followed by a file that exists, one that does not, or nothing
+Opt(ws) == ws
+\* (-run is left out: it executes the loaded program for as long as that takes)
+CmdOpts == {<<"-bin">>, <<"-disasm">>, <<"-msp430">>, <<"-avr8">>, <<"-bogus_q">>, <<"-h">>,
+            <<"-disasm_range">>, <<"-disasm_range", "0x10-0x20">>, <<"-disasm_range", "zzz">>, <<"-disasm_range", "0x20-0x10">>,
+            <<"-address">>, <<"-address", "0x1000">>, <<"-address", "zzz">>, <<"-address", "0xffffffff">>,
+            <<"-set_pc">>, <<"-set_pc", "0x10">>, <<"-set_pc", "zzz">>,
+            <<"-break_io">>, <<"-break_io", "0x20">>, <<"-sim_serial">>, <<"-sim_serial", "1">>, <<"-sim_serial", "1", "in_q.txt">>,
+            <<"-type">>, <<"-type", "hex">>, <<"-type", "bogus">>}
+Files == {"", "t.hex", "missing_q.hex", "t.bin"}
+CmdLines(n) == IF n = 1 THEN {[opts |-> <<a>>, file |-> f] : a \in CmdOpts, f \in Files}
+               ELSE {[opts |-> <<a, b>>, file |-> f] : a \in CmdOpts, b \in CmdOpts, f \in Files}
 VARIABLE s
 SInit == s = <<>>
 SNext == Len(s) < MaxCmds /\ \E cm \in Cmds, a \in Args : s' = Append(s, [cmd |-> cm, arg |-> a])
 SEmit == s = <<>> \/ PrintT("CASE " \o ToJson(s))
 \* one-command sessions under every ending, and the asm blocks
+SEmitCmd == (s = <<>>) => (PrintT("CMDL " \o ToJson(CmdLines(1))) /\ PrintT("CMDL " \o ToJson(CmdLines(2))))
 SEmitEnds == (Len(s) = 1 => \A e \in Ends : PrintT("ENDS " \o ToJson([cmds |-> s, end |-> e])))
              /\ (s = <<>> => \A c \in AsmCases, e \in Ends : PrintT("ENDS " \o ToJson([cmds |-> <<c>>, end |-> e])))
 =============================================================================
